@@ -289,6 +289,15 @@ def t1_cosorted_timestamps(F, r):
         for c in F.children.get(root, []):
             if c.startswith(g + "::") and any("timestamp" in [x[1] for x in mir.proj_fields(p)] for p in util.all_places(F.fns[c])):
                 reads_ts = True
+        if not reads_ts and len(t.get("argtys", [])) > 1:
+            # the key / comparator is a closure defined elsewhere in `new` (`let as_seconds = |m| ..; v.sort_by_key(as_seconds)`): identify it by the closure type of the argument
+            import re as _re
+            m_ = _re.search(r"\{closure@[^:}]+:(\d+):(\d+)", t["argtys"][1])
+            if m_:
+                for c in fam:
+                    cf = F.fns[c]
+                    if cf["kind"] == "Closure" and F.loc(c).endswith(":" + m_.group(1)) and any("timestamp" in [x[1] for x in mir.proj_fields(p)] for p in util.all_places(cf)):
+                        reads_ts = True
         if reads_ts:
             r.ok("TimeAware::new: sort key", "matrices sorted by `timestamp`")
         else:
